@@ -116,14 +116,35 @@ def run_script(exe, lines, wd, name="s", hang=60, timeout=900, env_extra=None, p
     if os.path.exists(tp):
         if parse:
             with open(tp, errors="replace") as f:
+                pend = None       # an event whose line was interrupted by events written from inside the call (FaultAt of the injector)
                 for ln in f:
                     ln = ln.strip()
                     if not ln:
                         continue
+                    if pend is not None:
+                        try:
+                            inner = json.loads(ln)
+                            if isinstance(inner, dict) and inner.get("e") in ("FaultAt",):
+                                held.append(inner); continue
+                        except Exception:
+                            pass
+                        pend += ln
+                        try:
+                            ev = json.loads(pend)
+                            events.append(ev); events.extend(held); pend = None
+                        except Exception:
+                            if len(pend) > 4000000:
+                                events.append({"e": "Garbled", "raw": pend[:200]}); events.extend(held); pend = None
+                        continue
                     try:
                         events.append(json.loads(ln))
                     except Exception:
-                        events.append({"e": "Garbled", "raw": ln[:200]})
+                        if ln.startswith('{"e":"Compile"') and not ln.endswith("}"):
+                            pend, held = ln, []
+                        else:
+                            events.append({"e": "Garbled", "raw": ln[:200]})
+                if pend is not None:
+                    events.append({"e": "Garbled", "raw": pend[:200]}); events.extend(held)
             ended = bool(events) and events[-1].get("e") == "End"
             # leaks that a LeakCheck event already attributed to an execution are reported again at exit
             lcs = [e["bytes"] for e in events if e.get("e") == "LeakCheck"]
